@@ -91,6 +91,28 @@ impl DiskCache {
     }
 }
 
+/// verification-only read access to the tracked entries (never compiled in normal builds)
+#[cfg(xet_verif)]
+impl DiskCache {
+    /// (num_items, total_bytes, per key: entries in list order as (start, end, len, checksum, verified))
+    #[allow(clippy::type_complexity)]
+    pub fn verif_snapshot(&self) -> Result<(usize, u64, Vec<(Key, Vec<(u32, u32, u64, u32, bool)>)>), ChunkCacheError> {
+        let state = self.state.lock()?;
+        let entries = state
+            .inner
+            .iter()
+            .map(|(k, items)| {
+                let v = items
+                    .iter()
+                    .map(|i| (i.range.start, i.range.end, i.len, i.checksum, i.is_verified()))
+                    .collect();
+                (k.clone(), v)
+            })
+            .collect();
+        Ok((state.num_items, state.total_bytes, entries))
+    }
+}
+
 impl DiskCache {
     pub fn num_items(&self) -> Result<usize, ChunkCacheError> {
         let state = self.state.lock()?;
@@ -247,6 +269,8 @@ impl DiskCache {
             let Some(cache_item) = self.find_match(key, range)? else {
                 return Ok(None);
             };
+            #[cfg(xet_verif)]
+            utils::verif_hooks::point("cache.get.matched");
 
             let path = self.item_path(key, &cache_item)?;
 
@@ -322,11 +346,15 @@ impl DiskCache {
 
         // check if we already contain the range
         while let Some(cache_item) = self.find_match(key, range)? {
+            #[cfg(xet_verif)]
+            utils::verif_hooks::point("cache.put.matched");
             if self.validate_match(key, range, chunk_byte_indices, data, &cache_item)? {
                 return Ok(());
             }
         }
 
+        #[cfg(xet_verif)]
+        utils::verif_hooks::point("cache.put.nomatch");
         let header = CacheFileHeader::new(chunk_byte_indices);
         let mut header_buf = Vec::with_capacity(header.header_len());
         header.serialize(&mut header_buf)?;
@@ -352,6 +380,8 @@ impl DiskCache {
             fw.close()?;
         }
 
+        #[cfg(xet_verif)]
+        utils::verif_hooks::point("cache.put.written");
         // evict items after ensuring the file write but before committing to cache state
         // to avoid removing new item.
         let mut state = self.state.lock()?;
@@ -401,9 +431,13 @@ impl DiskCache {
 
         // remove files after done with modifying in memory state and releasing lock
         for path in overlapping_item_paths {
+            #[cfg(xet_verif)]
+            utils::verif_hooks::point("cache.put.unlink_subsumed");
             remove_file(&path)?;
         }
         for path in evicted_paths {
+            #[cfg(xet_verif)]
+            utils::verif_hooks::point("cache.put.unlink_evicted");
             remove_file(&path)?;
             // check and try to remove key path if all items evicted for key
             let dir_path = path.parent().ok_or(ChunkCacheError::Infallible)?;
@@ -553,6 +587,8 @@ impl DiskCache {
             }
         }
 
+        #[cfg(xet_verif)]
+        utils::verif_hooks::point("cache.remove_item.unlink");
         let path = self.item_path(key, cache_item)?;
 
         if !path.exists() {
